@@ -19,6 +19,9 @@ on every matching request, nothing is sent to a non-matching origin / path or af
 requested ones); broken matcher / delete variants must violate it.  The labelled transition system is exported and every
 transition replayed on a real werkzeug.test.Client (echo app, patched clock); seeded random histories are recorded and
 judged by ClientJarTrace.tla (clauses JarSM...).
+
+Repository tests: tests/test_http.py, test_wrappers.py, test_test.py, sansio/test_utils.py (thorough: all of tests/) run under
+harness/pytest_cookie_plugin.py; every dump_cookie call, parse_cookie call and Client session they make is judged (keys RepoTests...).
 """
 from __future__ import annotations
 
@@ -145,8 +148,107 @@ def run_jar_sm(ctx: Ctx):
         ctx.sample({"kind": "jar history", "ops": [s["op"] for s in hists[len(hists) - 1]]})
 
 
+# ---------------------------------------------------------------------- the repository's own tests, judged
+REPO_TEST_FILES = ["tests/test_http.py", "tests/test_wrappers.py", "tests/test_test.py", "tests/sansio/test_utils.py"]
+
+
+def repo_test_traces(ctx: Ctx):
+    repo_tests_finish(ctx, repo_tests_start(ctx))
+
+
+def repo_tests_start(ctx: Ctx):
+    """start the repository's tests under the recording plugin (they run next to the other stages of the check)"""
+    import os
+    import subprocess
+    import sys
+
+    from ..core import REPO, VERIF
+
+    out = os.path.join(ctx.tmp, "repo-cookie-records.json")
+    env = dict(os.environ, VERIF_TRACE_OUT=out, PYTHONPATH=VERIF + os.pathsep + os.path.join(REPO, "src"), PYTHONDONTWRITEBYTECODE="1")
+    files = REPO_TEST_FILES if ctx.quick else ["tests"]
+    proc = subprocess.Popen([sys.executable, "-m", "pytest", "-q", "-p", "no:cacheprovider", "-p", "harness.pytest_cookie_plugin", "--no-header",
+                             "-n", "0", *files], cwd=REPO, env=env, stdout=subprocess.PIPE, stderr=subprocess.STDOUT, text=True)
+    return proc, out, files
+
+
+def repo_tests_finish(ctx: Ctx, started):
+    """judge what the repository's tests did under harness/pytest_cookie_plugin.py and judge what they did: every dump_cookie call by the
+    header clauses of CookieTrace.tla (+ a parse-back of the recorded header), every parse_cookie call as drift against the scanner
+    model, every Client with cookies as a ClientJar history."""
+    import concurrent.futures as cf
+    import json
+    import os
+    import subprocess
+    from types import SimpleNamespace
+
+    from ..core import cps
+
+    proc, out, files = started
+    try:
+        stdout, _ = proc.communicate(timeout=1500)
+    except subprocess.TimeoutExpired:
+        proc.kill()
+        raise tlc.MachineryError("the repository's tests did not finish under the recording plugin")
+    p = SimpleNamespace(stdout=stdout or "", stderr="", returncode=proc.returncode)
+    if not os.path.exists(out):
+        raise tlc.MachineryError("recording the repository's tests produced no record file:\n" + (p.stdout + p.stderr)[-1500:])
+    data = json.load(open(out))
+    lines, src = [], {}
+    for j, rec in enumerate(data["dumps"]):
+        ln = ck.dump_line_from_record(rec)
+        ln["t"], ln["i"] = f"rd{j}", 0
+        lines.append(ln)
+        src[ln["t"]] = {"test": rec["test"], "record": {k: rec[k] for k in ("key", "value", "a", "via", "hdr", "exc")}}
+    for j, rec in enumerate(data["parses"]):
+        if rec["exc"] or len(rec["s"]) > 200:
+            data["skipped"]["parse_cookie: raised / longer than 200"] = data["skipped"].get("parse_cookie: raised / longer than 200", 0) + 1
+            continue
+        lines.append({"t": f"rp{j}", "i": 0, "op": "parse", "flow": "repo-tests:parse_cookie", "hdr": cps(rec["s"]),
+                      "got": [[cps(k), cps(v)] for k, v in rec["got"]], "perr": ""})
+    jl, jsrc = [], {}
+    for j, s in enumerate(data["sessions"]):
+        if not s["lines"]:
+            continue
+        t = f"rj{j}"
+        jsrc[t] = s
+        for i, ln in enumerate([{"op": "init", "a": dict(ck.JAR_A), "sent": [], "sent2": [], "found": False, "got": dict(ck.NO_GOT), "proj": [], "exc": ""}] + s["lines"]):
+            ln["t"], ln["i"] = t, i
+            jl.append(ln)
+    n_dump = sum(1 for ln in lines if ln["op"] == "dump")
+    n_parse = len(lines) - n_dump
+    ctx.notes["repo_tests"] = {"files": files, "pytest_tail": (p.stdout.strip().splitlines() or [""])[-1][:120], "dump_calls_judged": n_dump,
+                               "parse_calls_compared": n_parse, "client_sessions_judged": len(jsrc), "client_steps_judged": len(jl) - len(jsrc),
+                               "client_sessions_recorded": len(data["sessions"]), "skipped_by_reason": data["skipped"]}
+    if n_dump < 30 or n_parse < 20 or len(jl) - len(jsrc) < 50:
+        raise tlc.MachineryError(f"too few records from the repository's tests: {ctx.notes['repo_tests']}")
+    nrej = 0
+    with cf.ThreadPoolExecutor(max_workers=2) as ex:  # two judge specs, two JVMs, side by side
+        f1 = ex.submit(ctx.judge, AREA, "CookieTrace", lines, batch=2500)
+        f2 = ex.submit(ctx.judge, AREA, "ClientJarTrace", jl, cfg="ClientJarRepo", batch=3000)
+        rej1, rej2 = f1.result(), f2.result()
+    for rj in rej1:
+        nrej += 1
+        ln = next(x for x in lines if x["t"] == rj["t"])
+        ctx.violation(f"RepoTests{rj['clause']}:{ln['flow']}:{ck.classes(ln.get('value', []))}", "RepoTests" + rj["clause"],
+                      {"repo_record": src.get(rj["t"]), "what": "dump_cookie call made by the repository's tests"}, kind="c13-repo")
+    for rj in rej2:
+        nrej += 1
+        s = jsrc[rj["t"]]
+        ctx.violation(f"RepoTests{rj['clause']}:{s['lines'][rj['i'] - 1]['op']}", "RepoTests" + rj["clause"],
+                      {"test": s["test"], "i": rj["i"], "repo_jar_lines": s["lines"], "what": "Client session of the repository's tests"}, kind="c13-repo")
+    if p.returncode != 0 and nrej == 0:
+        raise tlc.MachineryError("the repository's tests fail under the recording plugin and nothing was rejected:\n" + (p.stdout + p.stderr)[-1500:])
+    ctx.count(n_dump + len(jl) - len(jsrc), None)
+    for t in list(src)[:400]:
+        ctx.nontrivial.add(("repo", t))
+    for t in jsrc:
+        ctx.nontrivial.add(("repo", t))
+
+
 def run(ctx: Ctx):
     q = ctx.quick
+    repo_started = repo_tests_start(ctx)
     ctx.rule = ("case = (token key, text value, attribute record) run through dump_cookie or Response.set_cookie, the header parsed back by "
                 "sansio parse_cookie (whole header and the pair a user agent returns), http.parse_cookie(environ) and, where the path/domain "
                 "allow a request to be formed, the test client's jar + next request; cases = TLC-exported model universe (values <= 2/3 chars over "
@@ -200,9 +302,14 @@ def run(ctx: Ctx):
         ctx.violation(_key(rj["clause"], ln), rj["clause"], {"case": case, "op": ln["op"]}, kind="c13")
     ctx.notes["lines_by_flow"] = {f: sum(1 for ln in lines if ln["flow"] == f) for f in sorted({ln["flow"] for ln in lines})}
     run_jar_sm(ctx)
+    repo_tests_finish(ctx, repo_started)
 
 
 def replay(ctx: Ctx, data):
+    if data.get("kind") == "c13-repo":
+        # a call / session of the repository's tests: re-record the tests on the current tree and judge them again
+        repo_test_traces(ctx)
+        return
     if data.get("kind") == "c13-jar":
         out = ck.run_jar_history(data["case"]["jar_history"])
         for i, ln in enumerate(out):
